@@ -453,6 +453,7 @@ func (s *BadgerStore) dbGetRepertoire() (map[string]*peers.Peer, error) {
 }
 
 func (s *BadgerStore) dbSetRepertoire(peer *peers.Peer) error {
+	verifDBWrite("repertoire")
 	tx := s.db.NewTransaction(true)
 	defer tx.Discard()
 
@@ -496,6 +497,7 @@ func (s *BadgerStore) dbGetPeerSet(round int) (*peers.PeerSet, error) {
 }
 
 func (s *BadgerStore) dbSetPeerSet(round int, peerSet *peers.PeerSet) error {
+	verifDBWrite("peerset")
 	tx := s.db.NewTransaction(true)
 	defer tx.Discard()
 
@@ -537,6 +539,7 @@ func (s *BadgerStore) dbGetEvent(key string) (*Event, error) {
 }
 
 func (s *BadgerStore) dbSetEvents(events []*Event) error {
+	verifDBWrite("event")
 	tx := s.db.NewTransaction(true)
 	defer tx.Discard()
 
@@ -661,6 +664,7 @@ func (s *BadgerStore) dbTopologicalEvents(start int, count int) ([]*Event, error
 }
 
 func (s *BadgerStore) dbSetRoot(participant string, root *Root) error {
+	verifDBWrite("root")
 	tx := s.db.NewTransaction(true)
 	defer tx.Discard()
 
@@ -728,6 +732,7 @@ func (s *BadgerStore) dbGetRound(index int) (*RoundInfo, error) {
 }
 
 func (s *BadgerStore) dbSetRound(index int, round *RoundInfo) error {
+	verifDBWrite("round")
 	tx := s.db.NewTransaction(true)
 	defer tx.Discard()
 
@@ -770,6 +775,7 @@ func (s *BadgerStore) dbGetBlock(index int) (*Block, error) {
 }
 
 func (s *BadgerStore) dbSetBlock(block *Block) error {
+	verifDBWrite("block")
 	tx := s.db.NewTransaction(true)
 	defer tx.Discard()
 
@@ -812,6 +818,7 @@ func (s *BadgerStore) dbGetFrame(index int) (*Frame, error) {
 }
 
 func (s *BadgerStore) dbSetFrame(frame *Frame) error {
+	verifDBWrite("frame")
 	tx := s.db.NewTransaction(true)
 	defer tx.Discard()
 
